@@ -149,7 +149,7 @@ Lemma bound2_x2y_reflect a b x : bx2y2 a b (PI - x) = bx2y2 a b x.
 Proof. unfold bx2y2. rewrite sin_PI_x. reflexivity. Qed.
 
 Lemma bound2_x2y_period a b x : bx2y2 a b (x + 2 * PI) = bx2y2 a b x.
-Proof. unfold bx2y2. rewrite sin_plus, sin_2PI, cos_2PI. f_equal. ring. Qed.
+Proof. unfold bx2y2. rewrite sin_plus, sin_2PI, cos_2PI. replace (sin x * 1 + cos x * 0) with (sin x) by ring. reflexivity. Qed.
 
 (* ---------- lower bound only ---------- *)
 
@@ -161,8 +161,7 @@ Proof.
   unfold bx2y_lo, by2x_lo. pose proof (bclamp_lo_range a y) as Hc.
   set (c := bclamp_lo a y) in *.
   assert (H0 : 0 <= (c - a + 1) ^ 2 - 1) by nra.
-  replace (sqrt ((c - a + 1) ^ 2 - 1) ^ 2) with ((c - a + 1) ^ 2 - 1).
-  2:{ simpl. rewrite Rmult_1_r. rewrite sqrt_sqrt by exact H0. ring. }
+  rewrite pow2_sqrt by exact H0.
   replace ((c - a + 1) ^ 2 - 1 + 1) with (Rsqr (c - a + 1)) by (unfold Rsqr; ring).
   rewrite sqrt_Rsqr by lra. ring.
 Qed.
@@ -215,8 +214,7 @@ Proof.
   unfold bx2y_up, by2x_up. pose proof (bclamp_up_range b y) as Hc.
   set (c := bclamp_up b y) in *.
   assert (H0 : 0 <= (c - b - 1) ^ 2 - 1) by nra.
-  replace (sqrt ((c - b - 1) ^ 2 - 1) ^ 2) with ((c - b - 1) ^ 2 - 1).
-  2:{ simpl. rewrite Rmult_1_r. rewrite sqrt_sqrt by exact H0. ring. }
+  rewrite pow2_sqrt by exact H0.
   replace ((c - b - 1) ^ 2 - 1 + 1) with (Rsqr (b + 1 - c)) by (unfold Rsqr; ring).
   rewrite sqrt_Rsqr by lra. ring.
 Qed.
@@ -270,20 +268,23 @@ Proof.
   unfold bdydx2, bd2y2. auto_derive; [exact I|]. field.
 Qed.
 
+Lemma sq1_norm x : x * (x * 1) + 1 = x ^ 2 + 1.
+Proof. ring. Qed.
+
 Lemma bound_lo_is_derive a x : is_derive (bx2y_lo a) x (bdydx_lo x).
 Proof.
   unfold bx2y_lo, bdydx_lo. pose proof (sq1_pos x) as Hp. pose proof (sqrt_sq1_pos x) as Hs.
-  auto_derive.
-  - split; [|exact I]. simpl. simpl in Hp. lra.
-  - simpl. field. simpl in Hs. lra.
+  auto_derive; rewrite !sq1_norm.
+  - exact Hp.
+  - field. lra.
 Qed.
 
 Lemma bound_up_is_derive b x : is_derive (bx2y_up b) x (bdydx_up x).
 Proof.
   unfold bx2y_up, bdydx_up. pose proof (sq1_pos x) as Hp. pose proof (sqrt_sq1_pos x) as Hs.
-  auto_derive.
-  - split; [|exact I]. simpl. simpl in Hp. lra.
-  - simpl. field. simpl in Hs. lra.
+  auto_derive; rewrite !sq1_norm.
+  - exact Hp.
+  - field. lra.
 Qed.
 
 (* closed form of the second derivative: (x^2+1)^(-3/2) *)
@@ -299,3 +300,48 @@ Proof.
   apply Rdiv_lt_0_compat; [lra|]. apply Rmult_lt_0_compat; assumption.
 Qed.
 
+Lemma bound_lo_is_derive2 x : is_derive bdydx_lo x (bd2y_lo x).
+Proof.
+  unfold bdydx_lo, bd2y_lo. pose proof (sq1_pos x) as Hp. pose proof (sqrt_sq1_pos x) as Hs.
+  pose proof (sqrt_sq1_sqr x) as Hq.
+  auto_derive; rewrite !sq1_norm.
+  - repeat split; lra.
+  - set (s := sqrt (x ^ 2 + 1)) in *. clearbody s. rewrite <- Hq. field. lra.
+Qed.
+
+Lemma bound_up_is_derive2 x : is_derive bdydx_up x (bd2y_up x).
+Proof.
+  unfold bdydx_up, bd2y_up, bd2y_lo. pose proof (sq1_pos x) as Hp. pose proof (sqrt_sq1_pos x) as Hs.
+  pose proof (sqrt_sq1_sqr x) as Hq.
+  auto_derive; rewrite !sq1_norm.
+  - repeat split; lra.
+  - set (s := sqrt (x ^ 2 + 1)) in *. clearbody s. rewrite <- Hq. field. lra.
+Qed.
+
+(* Derive / Derive_n forms (what a chain-rule user needs) *)
+Lemma bound2_Derive a b x : Derive (bx2y2 a b) x = bdydx2 a b x.
+Proof. apply is_derive_unique. apply bound2_is_derive. Qed.
+Lemma bound_lo_Derive a x : Derive (bx2y_lo a) x = bdydx_lo x.
+Proof. apply is_derive_unique. apply bound_lo_is_derive. Qed.
+Lemma bound_up_Derive b x : Derive (bx2y_up b) x = bdydx_up x.
+Proof. apply is_derive_unique. apply bound_up_is_derive. Qed.
+
+(* slope signs: the two-sided map is increasing on the principal branch, the lower-only map is
+   increasing and the upper-only map decreasing for x > 0; all three are stationary exactly at
+   the points that map to a boundary (x = +-pi/2 resp. x = 0) *)
+Lemma bdydx2_pos a b x : a < b -> - PI / 2 < x < PI / 2 -> 0 < bdydx2 a b x.
+Proof.
+  intros Hab Hx. unfold bdydx2. assert (0 < cos x) by (apply cos_gt_0; lra). nra.
+Qed.
+Lemma bdydx_lo_sign x : 0 < x -> 0 < bdydx_lo x.
+Proof. intros Hx. unfold bdydx_lo. apply Rdiv_lt_0_compat; [exact Hx|apply sqrt_sq1_pos]. Qed.
+Lemma bdydx_up_sign x : 0 < x -> bdydx_up x < 0.
+Proof.
+  intros Hx. unfold bdydx_up. pose proof (sqrt_sq1_pos x) as Hs.
+  assert (0 < x / sqrt (x ^ 2 + 1)) by (apply Rdiv_lt_0_compat; assumption).
+  unfold Rdiv in *. lra.
+Qed.
+Lemma bdydx_lo_0 : bdydx_lo 0 = 0.
+Proof. unfold bdydx_lo. unfold Rdiv. ring. Qed.
+Lemma bdydx_up_0 : bdydx_up 0 = 0.
+Proof. unfold bdydx_up. unfold Rdiv. ring. Qed.
